@@ -343,11 +343,34 @@ def judgeTable (tbl : List C11LockRow) : String :=
   | some r => s!"fail:unguarded:{siteText r}"
   | none => "ok"
 
+/-- package-level variables that are written after `init` only by the start-up API — plugin and resolver registration,
+config-hook registration and the lazily compiled hook table of `core/config` — which pandora runs on one goroutine
+before any pool starts (the driver serialises its own set-up calls for the same reason) -/
+def setupOnlyVars : List String := [
+  "core/config.compiledHook", "core/config.hooks", "core/config.hooksNeedCompile",
+  "core/import.dataSinkConfigHooks", "core/import.dataSourceConfigHooks",
+  "core/plugin.defaultRegistry", "lib/confutil.resolvers"
+]
+
+/-- a writer entry is (function, guard of the write as text) -/
+def writerGuarded (w : String × String) : Bool := w.2 != ".none"
+
+def pkgVarOk (v : String × String × List (String × String)) : Bool :=
+  v.2.2.all writerGuarded || setupOnlyVars.contains v.1
+
+def judgePkgVars (vs : List (String × String × List (String × String))) : String :=
+  match vs.find? (fun v => !pkgVarOk v) with
+  | some v => s!"fail:unguarded-global:{v.1} ({v.2.1}) is written by {((v.2.2.filter fun w => !writerGuarded w).map (·.1)).headD ""} without protection"
+  | none => "ok"
+
 /-- everything `gen -area locks` re-extracted from the source of the tree under check -/
-def judgeStatic (tbl : List C11LockRow) (cs : List C11Closure) (sites : List (String × String × String)) : String :=
+def judgeStatic (tbl : List C11LockRow) (cs : List C11Closure) (sites : List (String × String × String))
+    (vars : List (String × String × List (String × String))) : String :=
   match judgeTable tbl with
   | "ok" => (match judgeClosures cs with
-    | "ok" => judgeSites sites
+    | "ok" => (match judgeSites sites with
+      | "ok" => judgePkgVars vars
+      | v => v)
     | v => v)
   | v => v
 
@@ -382,6 +405,12 @@ def enc (s : String) : String := String.join (s.toList.map encChar)
 
 /-- what a text template prints for a variable that was never set -/
 def noValue := "<no value>"
+
+/-- the gRPC isolate scenario: the greeting of the first answer (`none` = an empty greeting, which proto3 JSON omits)
+comes back in the metadata and in the payload of the second call -/
+def isolateEchoGrpc (tok : Option String) : String :=
+  let v := tok.getD noValue
+  s!"echo:{enc v},g:gg,name:{enc v}"
 
 /-- the model's prediction of what one shot of the isolate scenario echoes, from the X-Tok header of its first response
 (`none` = no such header) and the modifier chains of the var/header mapping: step 2 sends every extracted variable and
